@@ -481,7 +481,8 @@ class C13(LockCheck):
 class C11(LockCheck):
     lean_module = 'CppUtil.Props.C11'
     components = ['mcs']
-    theorems = ['CppUtil.Props.c11_tail_word', 'CppUtil.Props.c11_join_keeps_tail'] + MCS_BITS
+    theorems = ['CppUtil.Props.c11_tail_word', 'CppUtil.Props.c11_join_keeps_tail', 'CppUtil.Props.c11_no_overtake',
+                'CppUtil.Props.c11_queue_is_arrival_order', 'CppUtil.Props.mcs_invariant'] + MCS_BITS
     categories = ['fifo']
 
 
